@@ -59,6 +59,7 @@ struct World {
     recvd_wid: Vec<i64>,
     resume_seen: bool,       // a resume command was issued since the last `poll` op ended
     ever_no_handles: bool,
+    last_cmd_pause: Option<bool>, // the last pause (true) / resume (false) command issued, in issue order
     t3: Vec<(String, String)>,
 }
 
@@ -219,11 +220,13 @@ impl World {
                 Err(_) => return false,
             },
             ["pause"] => {
+                self.last_cmd_pause = Some(true);
                 self.waker.pause();
                 "ok".into()
             }
             ["resume"] => {
                 self.resume_seen = true;
+                self.last_cmd_pause = Some(false);
                 self.waker.resume();
                 "ok".into()
             }
@@ -442,6 +445,7 @@ impl Case {
             recvd_wid: vec![0; workers],
             resume_seen: false,
             ever_no_handles: false,
+            last_cmd_pause: None,
             t3: vec![],
         };
         Ok(Case {
@@ -1159,6 +1163,26 @@ fn run(a: &Args) {
                                         w.t3.push(("C05".into(), format!("{} connection(s) dispatched while paused (no resume was issued)", d.len())));
                                     }
                                     w.resume_seen = false;
+                                    // C05: commands take effect in the order they were issued — once the waker queue is
+                                    // empty the loop is paused iff the last pause / resume command was a pause
+                                    if !report.exited && !w.stop_seen && w.waker.queued() == 0 {
+                                        if let Some(want) = w.last_cmd_pause {
+                                            if after.paused != want {
+                                                w.t3.push(("C05".into(), format!(
+                                                    "every command has been processed and the last one issued was `{}`, but the accept loop is {}: commands do not take effect in the order they were issued",
+                                                    if want { "pause" } else { "resume" }, if after.paused { "paused" } else { "running" })));
+                                            }
+                                        }
+                                    }
+                                    // C05 / C03: a listener that is backing off has the poll time-out armed — otherwise nothing
+                                    // wakes the accept thread to put it back (the invariant `TInv` of the model, on the real state)
+                                    if !report.exited && after.timeout.is_none() {
+                                        if let Some(l) = after.socket_deadlines.iter().position(|d| d.is_some()) {
+                                            let msg = format!("listener {l} is in accept back-off (deadline pending) but Accept::timeout is None after this iteration: nothing will wake the accept thread to re-register it, waiting connections are stranded");
+                                            w.t3.push(("C05".into(), msg.clone()));
+                                            w.t3.push(("C03".into(), msg));
+                                        }
+                                    }
                                     // C05: an expired back-off deadline never survives an iteration
                                     if !report.exited {
                                         for (l, dl) in after.socket_deadlines.iter().enumerate() {
@@ -1181,7 +1205,23 @@ fn run(a: &Args) {
                                     if quiet && c.prev_op_was_quiet_poll && !after.paused && !report.exited && !c.stop_cmd
                                         && after.socket_deadlines.iter().all(|d| d.is_none())
                                     {
-                                        let tags: &[&str] = if w.any_die { &["C08", "C01"] } else { &["C03", "C01"] };
+                                        let tags: &[&str] = if w.any_die { &["C08", "C01", "C03"] } else { &["C03", "C01"] };
+                                        // C02: a worker marked available really has spare capacity (no send is in flight
+                                        // at an iteration boundary); fault-free histories only (a dead worker's late
+                                        // notification may legitimately set the bit of its saturated replacement)
+                                        if !w.any_die {
+                                            for idx in after.handles.iter().cloned() {
+                                                if let Some(wid) = w.alive_wid(idx) {
+                                                    if after.avail.get(idx).copied().unwrap_or(false) && w.live_wid[wid] >= w.limit as i64 {
+                                                        let msg = format!(
+                                                            "quiescent: worker {idx} has {} of {} connections in progress (saturated) but is marked available: the next connection would exceed max_concurrent_connections",
+                                                            w.live_wid[wid], w.limit);
+                                                        w.t3.push(("C02".into(), msg.clone()));
+                                                        w.t3.push(("C04".into(), msg));
+                                                    }
+                                                }
+                                            }
+                                        }
                                         if w.waker.queued() > 0 {
                                             let msg = format!("{} notification(s) are still in the waker queue after two full iterations: wake-ups are not being processed", w.waker.queued());
                                             for t in tags { w.t3.push((t.to_string(), msg.clone())); }
@@ -1367,9 +1407,9 @@ fn gen_case(w: &mut dyn Write, rng: &mut Rng, name: &str, prop: &str, long: bool
     let lst = *rng.pick(&["tcp", "tcp", "tcp,tcp", "tcp,uds", "uds"]);
     let listeners = lst.split(',').count();
     writeln!(w, "case {name} workers={workers} limit={limit} listeners={lst}").unwrap();
-    let faults = prop == "C08" || (prop == "C01" && rng.chance(1, 3)) || (prop == "C04" && rng.chance(1, 4));
-    let cmds = (matches!(prop, "C05" | "C01" | "C08") && rng.chance(2, 3)) || (matches!(prop, "C03" | "C04") && rng.chance(1, 3));
-    let inject = prop == "C05";
+    let faults = prop == "C08" || (prop == "C01" && rng.chance(1, 3)) || (matches!(prop, "C04" | "C03") && rng.chance(1, 4));
+    let cmds = (matches!(prop, "C05" | "C01" | "C08") && rng.chance(2, 3)) || (matches!(prop, "C03" | "C04" | "C02") && rng.chance(1, 3));
+    let inject = prop == "C05" || (prop == "C03" && rng.chance(1, 4));
     let mut g = Gen { rng, workers, listeners, wids: workers, faults, cmds, inject };
     let n = if long { g.rng.range(20, 80) } else { g.rng.range(5, 40) };
     for _ in 0..n {
@@ -1436,8 +1476,8 @@ fn gen(a: &Args) {
     if prop == "C04" {
         // a saturated worker receives nothing until it has released a connection — also a worker the server started
         // as a replacement (real Servers through the builder; the second one loses a worker first)
-        writeln!(w, "bld workers=2 limit=1 n=5 calls=workers,limit").unwrap();
-        writeln!(w, "bld workers=2 limit=1 n=4 calls=limit,workers kill=1").unwrap();
+        writeln!(w, "bld workers=2 limit=1 n=5 calls=workers,limit,blocking:8").unwrap();
+        writeln!(w, "bld workers=2 limit=1 n=4 calls=limit,blocking:3,workers kill=1").unwrap();
         for i in 0..=600usize {
             writeln!(w, "k-offset {i}").unwrap();
         }
